@@ -356,7 +356,10 @@ def run_live_exec(case):
             for i in range(case["strategies"]):
                 st = Strat(i, log, market_filter={"marketIds": [MID]}, name="s%d" % i, max_trade_count=lim.get("max_trades", 10 ** 6), max_live_trade_count=lim.get("max_live", 10 ** 6),
                            max_order_exposure=10 ** 9, max_selection_exposure=lim.get("max_sel", 10 ** 9), multi_order_trades=lim.get("multi", False))
-                fw.add_strategy(st); sts.append(st)
+                if i in (case.get("late") or []):
+                    sts.append(st)          # created, registered with the framework only by a ["register", i] step
+                else:
+                    fw.add_strategy(st); sts.append(st)
             W["packages"] = []
             fw.process_order_package = lambda p: W["packages"].append(p)
             from flumine.streams.marketstream import MarketStream
@@ -791,6 +794,11 @@ def run_live_exec(case):
                     fw._process_current_orders(events.CurrentOrdersEvent([co], exchange=ExchangeType.BETFAIR))
                 except Exception as e:
                     res["exc"] = type(e).__name__ + ":" + str(e)[:100]
+            elif step[0] == "register":
+                st_ = W["strategies"][step[1]]
+                if st_ not in list(W["fw"].strategies):
+                    W["fw"].add_strategy(st_)
+                res = {"registered": step[1]}
             elif step[0] == "restart":
                 for c in W["calls"]:
                     finish_call(c, quiet=True)      # the old process is gone; whatever its threads still do is invisible
